@@ -498,6 +498,7 @@ impl Client {
 /// The same, from a given client socket (which may have been used for earlier requests: same endpoint).
 pub fn download_on(c: &mut Client, srv: &Srv, name: &[u8], opts: &[(String, String)], pre_ack_grace: Option<Duration>, ack_mode: u8) -> Dl {
     let mut prev_ack: Option<u16> = None;
+    let mut did_partial = false;
     let mut r = Dl::default();
     c.to_server(&rc::request(false, name, opts));
     let mut blk = 512usize;
@@ -548,6 +549,20 @@ pub fn download_on(c: &mut Client, srv: &Srv, name: &[u8], opts: &[(String, Stri
                     expect += 1;
                     in_window += 1;
                     let last = data.len() < blk;
+                    if ack_mode == 4 && !did_partial && !last && in_window == ws && ws >= 2 {
+                        // acknowledge only the FIRST block of this window: the server goes back and sends exactly the next
+                        // `ws` blocks (the rest of this window again plus one new block)
+                        did_partial = true;
+                        let back = (ws - 1) as usize;
+                        r.data.truncate(r.data.len() - back * blk);
+                        r.block_lens.truncate(r.block_lens.len() - back);
+                        expect -= back as u64;
+                        in_window = 0;
+                        burst.clear();
+                        c.to_peer(&rc::ack(((expect - 1) % 65536) as u16));
+                        first = false;
+                        continue;
+                    }
                     if last || in_window == ws {
                         in_window = 0;
                         r.bursts.push(std::mem::take(&mut burst));
